@@ -4,10 +4,17 @@
 EXTENDS ThreePhase, TLC, Json
 CONSTANTS Depth, MaxT
 VARIABLE hist
+Act(op, ph, ret, h, more) == [op |-> op, ph |-> ph, ret |-> ret, h |-> h, more |-> more]
+Adds1 == {Act("add", ph, r, 0, <<>>) : ph \in Phases, r \in {"plain", "raise", "defer"}}
+Rms   == {Act("rm", "-", "-", h, <<>>) : h \in 1..(MaxT + 2)}
+\* a registered trigger may itself register / remove (one level of nesting)
+Adds2 == {Act("add", ph, "plain", 0, <<a>>) : ph \in Phases, a \in {Act("add", p2, "plain", 0, <<>>) : p2 \in Phases} \cup {Act("rm", "-", "-", h, <<>>) : h \in 1..3}}
+Scripts == {<<a>> : a \in Adds1 \cup Rms \cup Adds2} \cup {<<a, b>> : a \in Adds1 \cup Rms, b \in Rms \cup {Act("add", ph, "plain", 0, <<>>) : ph \in Phases}}
+SimKinds == {K(r) : r \in Rets} \cup {[ret |-> r, acts |-> sc] : r \in {"plain", "raise", "defer"}, sc \in Scripts}
 SInit == /\ \E a \in {"raw", "reactor"} : InitWith([api |-> a])
          /\ hist = <<>>
 Case == /\ Len(hist) < Depth
-        /\ \/ (nT < MaxT /\ \E ph \in Phases, k \in Kinds : Add(ph, k))
+        /\ \/ (nT < MaxT /\ \E ph \in Phases : \E k \in (IF RandomElement(1..3) = 1 THEN SimKinds ELSE {K(r) : r \in Rets}) : Add(ph, k))
            \/ \E h \in 1..nT : RemoveOk(h)
            \/ Fire
            \/ \E d \in pend, how \in {"ok", "err"} : FireDeferred(d, how)
